@@ -1574,6 +1574,8 @@ def table_hdr_cell_fn(ctx: "Wtp", token: str) -> None:
         if node.kind in (
             NodeKind.HTML,
             NodeKind.TEMPLATE,
+            NodeKind.PARSER_FN,
+            NodeKind.TEMPLATE_ARG,
             NodeKind.LINK,
             NodeKind.URL,
         ):
